@@ -113,7 +113,8 @@ impl Gen {
         } else {
             let n = self.rng.range(1, 5) as u32;
             let mut ts: Vec<GTask> = vec![];
-            let olds: Vec<u32> = existing.keys().copied().collect();
+            // submit.rs (after fix 2a18501, F16) refuses a dependency on a failed / canceled / aborted task of the job
+            let olds: Vec<u32> = existing.iter().filter(|(_, t)| t.st != St::Done).map(|(k, _)| *k).collect();
             for k in 0..n {
                 let id = base + k;
                 let mut deps = vec![];
